@@ -6,7 +6,7 @@
    hence every trace of the model satisfies them; the same checkers are run on the traces of the
    implementation. *)
 From Coq Require Import NArith ZArith List.
-From LCP Require Import Base.CheckedMem Events.EventsTrace Events.EventsSpec Events.EventsModel Events.EventsSpecProofs Events.EventsInv Events.EventsRun5 Events.EventsRun5Frame Events.EventsSpec5Order Events.EventsSpec5Status Events.EventsSpec5Block.
+From LCP Require Import Base.CheckedMem Events.EventsTrace Events.EventsSpec Events.EventsModel Events.EventsSpecProofs Events.EventsInv Events.EventsRun5 Events.EventsRun5Frame Events.EventsSpec5Order Events.EventsSpec5Status Events.EventsSpec5Block Events.EventsProgress.
 Import ListNotations.
 
 Theorem check_c05_sound : forall t, check_c04 t = true -> check_c05 t = true -> C05_holds t.
@@ -67,4 +67,26 @@ Lemma ends_in_runs_to5 p xs pl cl fuel s : ends_in p xs pl cl fuel s -> runs_to5
 Proof.
   intros [A [B [C [D E]]]]. split; [exact A|]. split; [exact B|]. split; [exact C|]. split; [exact D|].
   unfold run_case. rewrite E. reflexivity.
+Qed.
+
+(* the hypotheses of the C05 theorems are met by every run on arguments inside the API's contract
+   (EventsProgress.v: the model never faults, asserts only on prio >= 32 or fd >= INT_MAX), unless
+   the fuel given to the dispatcher loops was too small *)
+Theorem runs_to5_or_out_of_fuel p xs pl cl fuel :
+  prog_norm5 p -> Forall xop_norm5 xs -> Forall (fun t => tv_norm t = true) cl -> clocks_from (0, 0)%N cl ->
+  prog_safe p -> Forall xop_safe xs ->
+  (exists tr, runs_to5 p xs pl cl fuel tr) \/ run_case p xs pl cl fuel = OutOfFuel.
+Proof.
+  intros A B C D E F. destruct (model_no_assert p xs pl cl fuel E F) as [[tr H] | H]; [left | right; exact H].
+  exists tr. unfold runs_to5. auto.
+Qed.
+
+Theorem ends_in_or_out_of_fuel p xs pl cl fuel :
+  prog_norm5 p -> Forall xop_norm5 xs -> Forall (fun t => tv_norm t = true) cl -> clocks_from (0, 0)%N cl ->
+  prog_safe p -> Forall xop_safe xs ->
+  (exists s, ends_in p xs pl cl fuel s) \/ run_case p xs pl cl fuel = OutOfFuel.
+Proof.
+  intros A B C D E F. destruct (model_no_assert p xs pl cl fuel E F) as [[tr H] | H]; [left | right; exact H].
+  unfold run_case in H. destruct (exec_xops p fuel xs (st_init pl cl)) as [s| | |] eqn:X; try discriminate H.
+  exists s. unfold ends_in. auto.
 Qed.
